@@ -178,6 +178,57 @@ def Definition.usable : Definition → Bool
 
 def Row.usable (row : Row) : Bool := (deriveDefinition row.defGiven row.returns).usable
 
+/-! ### process-wide state between analyses: the class-level `fields` dictionaries
+
+`Type.add_attr(field, value)` is `self.fields[field] = value`.  Whether that write stays inside the analysis
+depends on WHICH dictionary `self.fields` is (generated per Type class: `typeClassRows`). -/
+
+/-- The class-level `fields` dictionaries of the process: class name ↦ field names. -/
+abbrev ClassFields := List (String × List String)
+
+def FieldsOwner.writesClassLevel : FieldsOwner → Bool
+  | .classLevel => true
+  | .unknown => true        -- not understood: assume the worst
+  | .own => false
+  | .noClassDict => false
+
+def insertField (field : String) (fs : List String) : List String :=
+  if fs.contains field then fs else fs ++ [field]
+
+/-- `instance.add_attr(field, _)` for an instance of class `row`: the class-level dictionaries afterwards. -/
+def addAttr (row : TypeClassRow) (field : String) (cf : ClassFields) : ClassFields :=
+  if row.owner.writesClassLevel then
+    cf.map fun p => if p.1 = row.name then (p.1, insertField field p.2) else p
+  else cf
+
+def runStores : List (TypeClassRow × String) → ClassFields → ClassFields
+  | [], cf => cf
+  | (row, f) :: ops, cf => runStores ops (addAttr row f cf)
+
+/-- The parser + visitor as a function of the code AND of the process-wide class-level dictionaries it can
+    read (`get_attr`), together with the attribute stores it performs (`add_attr` on instances of which class). -/
+structure StatefulVisitor where
+  run : ClassFields → Code → Inner × List (TypeClassRow × String)
+
+/-- One analysis (fresh report) in a process whose class-level dictionaries are `cf`. -/
+def analyseWith (v : StatefulVisitor) (cf : ClassFields) (code : Code) : Inner × ClassFields :=
+  ((v.run cf code).1, runStores (v.run cf code).2 cf)
+
+/-- The class-level dictionaries after analysing a list of programs one after the other. -/
+def afterHistory (v : StatefulVisitor) : List Code → ClassFields → ClassFields
+  | [], cf => cf
+  | c :: cs, cf => afterHistory v cs (analyseWith v cf c).2
+
+/-- `fields <Class> <field>` → does an `add_attr` on a fresh instance reach a class-level dictionary? -/
+def handleFields : List String → String
+  | [cls, field] =>
+    match typeClassRows.find? (·.name = cls) with
+    | some row =>
+      let cf0 : ClassFields := [(row.name, [])]
+      if addAttr row field cf0 = cf0 then "class-level-unchanged" else "class-level-changed"
+    | none => "unknown-class"
+  | _ => "bad-request"
+
 /-! ### wire format (driver)
 
 `wrap <offset> <nOutcomes> {<code> <outcome>}* <nCalls> {<code>}*`
